@@ -249,8 +249,8 @@ def check(run):
     run.prove(extra_targets=["theories/Base/Util.vo", "theories/Model/PyVal.vo", "theories/Model/Matcher.vo",
                              "theories/gen/TablesMatchers.vo"])
     quick = run.tier == "quick"
-    n_expr = 500 if quick else 24000
-    n_ops = 450 if quick else 12000
+    n_expr = 2000 if quick else 100000
+    n_ops = 1500 if quick else 40000
     opts = {"wrappers": True, "override": True}
 
     # ---- matches(): implementation observations, logic oracle
@@ -279,6 +279,8 @@ def check(run):
             hit = logic_oracle(e, v, [60])
             if hit:
                 cons, sub, sv, got, want = hit
+                sub = G.shrink(sub, lambda c: c[0] == cons and outcome(impl_truth, c, sv) != outcome(reference, c, sv), limit=150)
+                got, want = outcome(impl_truth, sub, sv), outcome(reference, sub, sv)
                 run.violation("logic:%s" % cons,
                               "%s does not compute what Python's operators give: implementation %r, reference %r" % (cons, got, want),
                               {"kind": "logic", "expr": repr(sub), "value": repr(sv), "implementation": got, "reference": want})
